@@ -96,6 +96,36 @@ def r1_independent(R) -> None:
         if not ws:
             R.ok(fq, 'writes no module-level / nonlocal state', trivial=True)
     R.expect(P, total, 10, 'functions in the parser call graph')
+    # a memoised function of the call graph whose (mutable) result a caller changes in place: the next statement with the
+    # same text gets the changed object back - the parse of a statement would depend on the statements seen before
+    CACHES = ('functools.lru_cache', 'lru_cache', 'functools.cache', 'cache')
+    for fq in sorted(reach):
+        fi = R.repo.func(fq)
+        cached = [d for d in fi.node.decorator_list if dotted(d.func if isinstance(d, ast.Call) else d) in CACHES]
+        if not cached:
+            continue
+        users = []
+        for gq in sorted(reach):
+            gi = R.repo.func(gq)
+            g_ = Fn(R, gq)
+            for n in g_.cfg.nodes:
+                a_ = n.ast
+                if n.kind == 'stmt' and isinstance(a_, ast.Assign) and len(a_.targets) == 1 and isinstance(a_.targets[0], ast.Name) and is_call(a_.value, fi.name):
+                    nm = a_.targets[0].id
+                    for m in g_.cfg.nodes:
+                        if m.ast is None or m.kind != 'stmt' or n.id not in g_.lf.defs_reaching(m.id, nm):
+                            continue
+                        for x in ast.walk(m.ast):
+                            if isinstance(x, ast.Subscript) and isinstance(x.ctx, (ast.Store, ast.Del)) and isinstance(x.value, ast.Name) and x.value.id == nm:
+                                users.append((g_, m))
+                            if isinstance(x, ast.Call) and isinstance(x.func, ast.Attribute) and x.func.attr in MUTATORS and isinstance(x.func.value, ast.Name) and x.func.value.id == nm:
+                                users.append((g_, m))
+        for (g_, m) in users:
+            R.violation(fq, f'memoised-result-mutated:{g_.q.split(".")[-1]}', f'`{fi.name}()` is memoised ({text(cached[0])[:40]}) and `{g_.q.split(".")[-1]}` changes its result in place '
+                        f'(`{m.label()[:60]}`): the cached object is handed out again for the same text, so what a statement parses to depends on earlier statements',
+                        where=g_.where(m))
+        if not users:
+            R.ok(fq, f'memoised ({text(cached[0])[:30]}); no caller changes the result in place')
     # the merge is a left fold in statement order (C03.R6 owns the detail)
     from rules import c03
     c03.r6_first_appearance(R)
